@@ -317,6 +317,10 @@ Definition do_writecas (ctx : kctx) (exp cas : N) (v : option string) (o : wopts
   | _, _ =>
     let rev := match r with Some r0 => r_rev r0 + 1 | None => 1 end in
     let was_tomb := match r with Some r0 => r_tomb r0 | None => false end in
+    (* WriteCas is the one call that hands the expected CAS to SQLite as a statement parameter, and database/sql
+       refuses a uint64 with the high bit set: the statement is not run, the call fails with the driver's error
+       (after the two checks made in Go: no row at all, nothing to append to) *)
+    if (9223372036854775808 <=? cas) && negb (w_append o && was_tomb) then kfail 1 EOther r else
     if w_append o then
       match r, v with
       | Some r0, Some suffix =>
